@@ -50,7 +50,7 @@ TRUSTED_BASE = [
 
 
 def run_check(prop, tier, seed, replay=None):
-    t0 = time.time()
+    t0 = time.monotonic()
     mod = importlib.import_module(PROPS[prop])
     ctx = common.Ctx(prop, tier, seed)
     lines = []
@@ -208,11 +208,11 @@ def run_check(prop, tier, seed, replay=None):
         }
         cov.update(ctx.extra)
         common.write_evidence(prop, tier, seed, cov, list(getattr(mod, "ASSUMPTIONS", [])),
-                              time.time() - t0, nviol)
+                              time.monotonic() - t0, nviol)
         for ln in lines:
             print(ln)
         print("%s %s: %d evaluations, %d/%d obligations, %d violation(s), %.1fs" % (
-            prop, tier, ctx.evaluations, discharged, len(theorems), nviol, time.time() - t0),
+            prop, tier, ctx.evaluations, discharged, len(theorems), nviol, time.monotonic() - t0),
             file=sys.stderr)
         return 1 if nviol else 0
     finally:
